@@ -1,3 +1,4 @@
+import LZ4V.Proofs.FastDSProof
 import LZ4V.Proofs.Arith
 /-!
 # C17 — destSize compressors fill the budget with a decodable prefix (arithmetic of the `fillOutput` adaptations)
@@ -52,5 +53,15 @@ theorem next_match_reserve : 2 + 1 + MFLIMIT - MINMATCH = 1 + (2 + 1 + LASTLITER
 example : adaptLastRun 20 = 18 ∧ (serLast (List.replicate 18 (0 : UInt8))).length = 20 := by
   refine ⟨by decide, ?_⟩
   rw [serLast_length, ext_length, List.length_replicate, if_pos (by omega)]
+
+/-- **destSize consumes a decodable prefix** (model of `LZ4_compress_generic_validated` with `fillOutput`: the three budget tests,
+    the shortening of a match with the clearing of hash positions beyond the new `ip`, the adapted last run, `*srcSizePtr`): the block
+    decodes, by the specification decoder, to EXACTLY the first `consumed` bytes of the input, for every input, target size and
+    acceleration.  The executable instance is byte-identical to `LZ4_compress_destSize` / `LZ4_compress_destSize_extState` on every
+    recorded call (consumed size and block). -/
+theorem destSize_decodes_to_consumed_prefix (src : Array UInt8) (acceleration : Int) (target consumed : Nat) (blk : List UInt8)
+    (h : LZ4V.Model.FastDS.compressDestSize src acceleration target = some (consumed, blk)) :
+    consumed ≤ src.size ∧ LZ4V.Spec.Block.decode [] blk = some (src.toList.take consumed) :=
+  LZ4V.Model.FastDS.compressDestSize_prefix src acceleration target consumed blk h
 
 end LZ4V.C17
